@@ -591,11 +591,27 @@ def run(tier):
             # bec2format header: library-side keys of P-256 as well
             p256 = _curve("NIST256p")
             hdr_lib = []
-            for kname, d in keys["NIST256p"] + [("random", r.randrange(1, p256.order)) for _ in range(40 if th else 8)]:
+            # value classes of the raw form: X (or Y) starting with 0x04 (the value of the uncompressed-point marker) or 0x00
+            special = []
+            for dd in range(1, 4000):
+                pt = _mk_sk("NIST256p", dd).verifying_key.pubkey.point
+                fx, fy = pt.x() >> 248, pt.y() >> 248
+                for cls, hit in (("x-starts-04", fx == 4), ("x-starts-00", fx == 0), ("y-starts-04", fy == 4), ("y-starts-00", fy == 0)):
+                    if hit and sum(1 for k, _ in special if k == cls) < 2:
+                        special.append((cls, dd))
+                if len(special) >= 8:
+                    break
+            for kname, d in keys["NIST256p"] + special + [("random", r.randrange(1, p256.order)) for _ in range(40 if th else 8)]:
                 raw = _raw_of_vk(_mk_sk("NIST256p", d).verifying_key)
-                obj = plugin.PublicEccKeyProxy.create_from_raw_fmt(raw)
-                dr = obj.to_der_fmt()
-                hdr_lib.append((kname, raw, dr, obj.to_raw_bin_fmt(),
+                try:
+                    obj = plugin.PublicEccKeyProxy.create_from_raw_fmt(raw)
+                    dr = obj.to_der_fmt()
+                    back0 = obj.to_raw_bin_fmt()
+                except Exception as e:                      # noqa: BLE001 -- a valid raw key refused: recorded, rejected by the spec
+                    kev.append({"op": "hdr", "src": "library key (%s): create_from_raw_fmt raised %s" % (kname, type(e).__name__), "raw": list(raw),
+                                "der": [], "back": [], "ossl": [], "back2": [], "_cost": 1})
+                    continue
+                hdr_lib.append((kname, raw, dr, back0,
                                 ossl.add(["ec", "-pubin", "-inform", "DER", "-in", "@in", "-pubout", "-outform", "DER"], data=dr)))
                 # the same public key handed to BEC2's key class in every legal DER form (point encodings x named/explicit
                 # parameters): the raw 64-byte form BEC2 derives from it must still be X||Y of that key
@@ -610,6 +626,21 @@ def run(tier):
                         except Exception as e:              # noqa: BLE001
                             ev2["ok"], ev2["exc"] = False, type(e).__name__
                         kev.append(ev2)
+            # a key and its negation share X and differ in the compressed prefix: decoded one after the other in ONE process
+            # (whatever the decoder may remember of the first must not change the second), every curve, both orders
+            for c in ws:
+                dd = r.randrange(2, c.order - 2)
+                for order in ((dd, c.order - dd, dd), (c.order - dd, dd)):
+                    for dk in order:
+                        vk = _mk_sk(c.name, dk).verifying_key
+                        comp = vk.to_string("compressed")
+                        ev3 = {"op": "hdr2", "src": "%s compressed, scalar %s" % (c.name, "d" if dk == dd else "n-d"), "raw": list(vk.to_string("raw")),
+                               "altder": list(comp), "ok": True, "back": [], "exc": "", "_cost": 3}
+                        try:
+                            ev3["back"] = list(VerifyingKey.from_string(comp, curve=c).to_string("raw"))
+                        except Exception as e:              # noqa: BLE001
+                            ev3["ok"], ev3["exc"] = False, type(e).__name__
+                        kev.append(ev3)
             ossl.run()
 
             # ---------------- fill in openssl's answers
